@@ -29,11 +29,42 @@ def findings():
     return '\n'.join(rows)
 
 
+def natkey(s):
+    return [int(t) if t.isdigit() else t for t in re.split(r'(\d+)', s)]
+
+
+def harmless():
+    rows = ['| id | property | kind | what was changed | quick check | what it reported |', '|---|---|---|---|---|---|']
+    d = os.path.join(VERIF, 'harmless')
+    n = q = fi = 0
+    for s in sorted(os.listdir(d), key=natkey):
+        mp = os.path.join(d, s, 'meta.json')
+        if not os.path.exists(mp):
+            continue
+        m = json.load(open(mp))
+        rp = os.path.join(d, s, 'result.json')
+        r = json.load(open(rp)) if os.path.exists(rp) else {}
+        n += 1
+        if r.get('silent'):
+            q += 1
+            oc, what = 'silent', ''
+        elif not r:
+            oc, what = 'not run', ''
+        elif 'no-failing-input-found' in r.get('violation_line', ''):
+            oc, what = 'no-failing-input-found', esc(r.get('what', ''))[:200]
+        else:
+            fi += 1
+            oc, what = 'FALSE ALARM (failing input claimed)', esc(r.get('what', ''))[:200]
+        rows.append('| %s | %s | %s | %s | %s | %s |' % (s, m['property'], esc(m.get('kind', '')), esc(m.get('summary', ''))[:260], oc, what))
+    rows += ['', '%d of %d property-preserving changes leave the quick check of their property silent; %d are reported with a claimed failing input (false alarms), the rest as `no-failing-input-found` (a proof obligation or the correspondence no longer checks).' % (q, n, fi)]
+    return '\n'.join(rows)
+
+
 def seeded():
     rows = ['| id | property | what was changed | needs | quick check | failing input reported |', '|---|---|---|---|---|---|']
     d = os.path.join(VERIF, 'seeded')
     n = c = 0
-    for s in sorted(os.listdir(d)):
+    for s in sorted(os.listdir(d), key=natkey):
         mp = os.path.join(d, s, 'meta.json')
         if not os.path.exists(mp):
             continue
@@ -95,7 +126,7 @@ def asbuilt():
 def main():
     p = os.path.join(VERIF, 'DESIGN.md')
     s = open(p).read()
-    for name, fn in (('findings', findings), ('seeded', seeded), ('theorems', theorems), ('asbuilt', asbuilt)):
+    for name, fn in (('findings', findings), ('seeded', seeded), ('harmless', harmless), ('theorems', theorems), ('asbuilt', asbuilt)):
         a, b = '<!-- BEGIN:%s -->' % name, '<!-- END:%s -->' % name
         if a in s and b in s:
             s = s[:s.index(a) + len(a)] + '\n' + fn() + '\n' + s[s.index(b):]
